@@ -574,7 +574,7 @@ def same_family(db, a, b):
 def rename(s, m):
     """Rename slots of a symbolic expression through map m (slot sym -> unified slot sym)."""
     k = s[0]
-    if k == "slot":
+    if k in ("slot", "param", "field", "local", "global"):
         return m.get(s, s)
     if k == "op":
         return ("op", s[1], rename(s[2], m), rename(s[3], m))
@@ -602,6 +602,67 @@ def normalise(items):
     return out
 
 
+_FDEF = {}
+
+
+def replace_subterms(s, cmap):
+    """Replace every sub-expression whose canonical form is a key of cmap by the mapped atom (outermost first)."""
+    c = canon(s)
+    if c in cmap:
+        return cmap[c]
+    k = s[0]
+    if k == "op":
+        return ("op", s[1], replace_subterms(s[2], cmap), replace_subterms(s[3], cmap))
+    if k in ("neg", "not"):
+        return (k, replace_subterms(s[1], cmap))
+    if k == "call":
+        return ("call", s[1], tuple(replace_subterms(a, cmap) for a in s[2]))
+    if k == "ite":
+        return ("ite",) + tuple(replace_subterms(x, cmap) for x in s[1:])
+    if k == "idx":
+        return ("idx", replace_subterms(s[1], cmap), replace_subterms(s[2], cmap))
+    return s
+
+
+def field_defs(db, rec, prefer=()):
+    """Fields of rec that every building constructor defines by the same expression over *other fields* (e.g.
+    BitSequenceRG::integers := n/W + 1). Values that a constructor stores into a field (a parameter, bs.getLength(), ...)
+    are mapped back to that field, preferring the fields in `prefer` (those the writer saves)."""
+    key = (id(db), rec, tuple(sorted(prefer)))
+    if key in _FDEF:
+        return _FDEF[key]
+    defs = None
+    ctors = [c for c in db.methods_of(rec) if c.is_ctor and c.params and stream_param(c, STREAM_IN) is None]
+    for c in ctors:
+        b = SeqBuilder(db, c, "c", nosubst=True)
+        try:
+            b.run()
+        except Exception:
+            continue
+        fields = {p[1]: v for p, v in b.env.items() if p[0] == "this" and len(p) == 2 and not symx.has_unknown(v)}
+        cmap = {}
+        for fn in sorted(fields, key=lambda x: (x not in prefer, x)):
+            v = fields[fn]
+            if symx.is_const(v):
+                continue
+            if v[0] in ("param", "call") or fn in prefer:
+                cmap.setdefault(canon(v), ("field", ("this", fn)))
+        cur = {}
+        for fn, v in fields.items():
+            if canon(v) in cmap and cmap[canon(v)] == ("field", ("this", fn)):
+                continue            # a source field
+            vv = replace_subterms(v, cmap)
+            if any(a[0] in ("param", "local") for a in symx.atoms(vv)) or not symx.atoms(vv):
+                continue
+            cur[fn] = vv
+        if defs is None:
+            defs = cur
+        else:
+            defs = {fn: v for fn, v in defs.items() if fn in cur and symx.differ_witness(v, cur[fn]) is None}
+    _FDEF[key] = defs or {}
+    return _FDEF[key]
+
+
 class Mirror:
     def __init__(self, db, rep, w, r, report=True):
         self.db, self.rep, self.w, self.r = db, rep, w, r
@@ -613,6 +674,7 @@ class Mirror:
         self.nested = []          # (writer cls, reader cls) pairs seen
         self.matches = []         # (writer item, reader item) for every paired leaf element
         self.failed = False
+        self.wvalmap = sequences(db, w, "w")[1].valmap
 
     def key(self, what):
         return "%s<->%s#%s" % (self.w.qn + ("/%d" % len(self.w.params) if self.w.rec == "RePair" else ""), self.r.qn, what)
@@ -630,6 +692,22 @@ class Mirror:
         """None if equal, 'undecided', or a witness."""
         if a is None or b is None:
             return "undecided"
+        # writer-side fields that are not image values but are defined from image values by every constructor
+        if self.w.rec and any(x[0] == "field" for x in symx.atoms(a)):
+            prefer = [c_[len("F:this."):] for c_ in self.wvalmap if c_.startswith("F:this.")]
+            defs = field_defs(self.db, self.w.rec, prefer)
+            sub = {}
+            for x in symx.atoms(a):
+                if x[0] == "field" and len(x[1]) == 2 and x[1][0] == "this" and x[1][1] in defs:
+                    d = defs[x[1][1]]
+                    # express the definition through the slots the writer has already emitted for those fields
+                    fm = {}
+                    for y in symx.atoms(d):
+                        if y[0] == "field" and canon(y) in self.wvalmap:
+                            fm[y] = self.wvalmap[canon(y)]
+                    sub[x] = rename(d, fm)
+            if sub:
+                a = rename(a, sub)
         a, b = rename(a, self.mw), rename(b, self.mr)
         if canon(a) == canon(b):
             return None
